@@ -192,6 +192,15 @@ MOP(product) {
     return os.str();
 }
 
+// product_s A rpA cpA B cpB : the same in storage order, compared with the rank-by-rank model Dist.dist_product
+MOP(product_s) {
+    auto A = t.crsT<double>(); Parts rpA = parts(t), cpA = parts(t);
+    auto B = t.crsT<double>(); Parts cpB = parts(t);
+    auto DA = dist(*A, rpA, cpA); auto DB = dist(*B, cpA, cpB);
+    auto C = amgcl::mpi::product(*DA, *DB);
+    return show_strip(*C, false, cpB.total);
+}
+
 // rrows A rpA cpA B cpB : remote_rows(A.cpat(), B) = rows of B for the ghost columns of A
 MOP(rrows) {
     auto A = t.crsT<double>(); Parts rpA = parts(t), cpA = parts(t);
